@@ -34,7 +34,7 @@ def py_decode(slot_hex):
     b = bytes.fromhex(slot_hex)
     return "%02x,%02x,%02x,%04x,%08x" % (b[0], b[1] & 0xf, b[1] >> 4, b[2] | (b[3] << 8), int.from_bytes(b[4:8], "little"))
 
-def oracle_c17(line, impl, model_kv):
+def oracle_c17(line, impl, model_kv, impl_kv=None, model=None):
     t = line.split()
     f = fields(impl)
     if impl == "bad-op": return None
@@ -69,13 +69,110 @@ def oracle_c17(line, impl, model_kv):
 
 # ---------------------------------------------------------------------------- C06
 
-def oracle_spec_only(line, impl, model_kv):
+def oracle_spec_only(line, impl, model_kv, impl_kv=None, model=None):
     """the driver printed the property's specification verdict as spec=…; generic comparison handles it"""
+    return None
+
+# ---------------------------------------------------------------------------- C14 / C15
+
+def oracle_c14(line, impl, model_kv, impl_kv=None, model=None):
+    if impl == "panic" or impl.startswith("crash"): return "assemble panicked"
+    t = line.split()
+    for tok in t[2:]:
+        if tok.startswith("want="):
+            w = tok[5:]
+            got = "ok:" + impl[3:] if impl.startswith("ok ") else impl
+            if w != got: return "assembler output '%s' differs from the bytes the documented syntax denotes '%s'" % (got[:80], w[:80])
+    return None
+
+def oracle_c15(line, impl, model_kv, impl_kv=None, model=None):
+    dom = model_kv.get("dom")
+    if dom == "in" and (impl == "panic" or impl.startswith("crash")): return "disassembler panicked on a byte string of whole supported instructions"
+    if dom == "in" and impl.startswith("ok"):
+        # fields of every entry against the raw slots (independent decode)
+        prog = line.split()[1]
+        prog = "" if prog == "-" else prog
+        ents = [e for e in impl[3:].split(";") if e] if len(impl) > 3 else []
+        k = 0; i = 0
+        while k * 16 < len(prog):
+            if i >= len(ents): return "fewer entries than instructions"
+            slot = bytes.fromhex(prog[16 * k:16 * k + 16]); f = ents[i].split("~")
+            if len(f) != 7: return "malformed entry"
+            if int(f[0], 16) != slot[0] or int(f[3], 16) != (slot[1] & 15) or int(f[4], 16) != (slot[1] >> 4) or int(f[5], 16) != int.from_bytes(slot[2:4], "little"):
+                return "entry %d does not report the encoded opcode/registers/offset" % i
+            imm = int.from_bytes(slot[4:8], "little", signed=True)
+            if slot[0] == 0x18:
+                nxt = bytes.fromhex(prog[16 * (k + 1):16 * (k + 1) + 16])
+                want = (int.from_bytes(slot[4:8], "little") | (int.from_bytes(nxt[4:8], "little") << 32))
+                k += 1
+            else: want = imm & 0xffffffffffffffff
+            if int(f[6], 16) != want: return "entry %d does not report the encoded immediate" % i
+            k += 1; i += 1
+        if i != len(ents): return "more entries than instructions"
     return None
 
 # ---------------------------------------------------------------------------- registry
 
+EXEC_TRUST = ["host addresses of the buffers are taken from the run itself (echoed by the harness, incl. the interpreter's stack through the rbpf_verif hook)",
+              "helpers registered by the harness are pure functions of their arguments"]
+
+def oracle_no_panic(line, impl, model_kv, impl_kv=None, model=None):
+    if impl == "panic" or impl.startswith("crash"): return "the interpreter panicked / crashed on a program the verifier accepted"
+    return None
+
 PROPS = {
+    "C05": dict(
+        suites=["exec-accepted", "exec-random", "exec-calls"], oracle=oracle_no_panic, level="proof", model_is_spec=True,
+        nontrivial=lambda line, impl: impl.split()[0] not in ("rejected", "bad-op"),
+        rule="suites exec-accepted + exec-random + exec-calls: every byte string of the C06 verify suite (every (opcode, register byte) in first/middle/penultimate/last position, every jump/call "
+             "displacement around the bounds and around wide loads, every opcode as last instruction, soups, mutated valid programs) is offered to the REAL verifier and, when accepted, "
+             "interpreted under an instruction budget with packet, metadata and helpers present; plus random structured programs and call graphs of depth 0..9. Oracle: never panic/abort. "
+             "Non-trivial: distinct program the verifier accepted (it was executed).",
+        trusted=EXEC_TRUST + ["C05_no_panic assumes HostOk (stack address in [2^20, 2^63), packet base + 2^32 < 2^64) and u16-valued stack-usage calculators"],
+    ),
+    "C07": dict(
+        suites=["exec-calls"], oracle=oracle_no_panic, level="proof", model_is_spec=True,
+        nontrivial=lambda line, impl: impl.split()[0] in ("ok", "err:oob", "err:call-depth"),
+        rule="suite exec-calls: call chains of depth 0..9, functions placed after (forward displacement) or before (backward) the caller, every function clobbering r6..r9, passing arguments in r1..r5, "
+             "measuring r10 distance to the caller's frame, storing/reloading a marker in its own frame; bounded recursion to depth 0..9 through a backward self call; stack-usage calculators absent, "
+             "constant, per-entry tables incl. values above 512 and not multiples of 8. Results (r0 folds r6..r9, r10 restoration, frame distances, markers) compared with the proved model. "
+             "Non-trivial: distinct program that ran to a value or to the expected error.",
+        trusted=EXEC_TRUST,
+    ),
+    "C19": dict(
+        suites=["helper"], oracle=None, level="proof", model_is_spec=True,
+        nontrivial=lambda line, impl: impl.startswith("ok"),
+        rule="suite helper: gather_bytes on boundary/random 5-tuples; memfrob on buffers of length 0..64 with every kind of sub-range; strcmp on equal / prefix / differing-at-k / high-byte / empty / null "
+             "inputs in both argument orders; bpf_trace_printf around every power of 16, 2^52, 2^53, u64::MAX with stdout captured and counted; rand on boundary (min,max) pairs incl. (0,u64::MAX); "
+             "sqrti on k^2-1,k^2,k^2+1 for thousands of k (all magnitudes) and large values, against the exact-integer IEEE model. Non-trivial: distinct argument tuple that ran.",
+        trusted=["IEEE-754: f64::sqrt is correctly rounded and `u64 as f64` rounds to nearest-even (written into Helpers.toF64 / sqrtTrunc in exact integer arithmetic)"],
+    ),
+    "C02": dict(
+        suites=["exec-memprobe", "exec-memops"], oracle=None, level="proof", model_is_spec=True,
+        nontrivial=lambda line, impl: impl.split()[0] in ("ok", "err:oob", "err:unaligned"),
+        rule="suites exec-memprobe + exec-memops: for each of ldx/st/stx/xadd/ldabs/ldind x widths 1,2,4,8: every offset within 9 bytes of both ends of the packet, "
+             "the metadata buffer, the 512-byte stack and a registered allowed range lying inside a larger canaried buffer, split between base register and 16-bit offset "
+             "(0, -8, 32767, ...), null and wrap-around addresses, on layouts (packet,metadata) in {(64,0),(64,32),(0,32),(0,0),(8,0),(1,8)}; in-bounds matrix of all access "
+             "instructions x registers. Outcome, returned value and digests of packet / metadata / allowed-memory bytes are compared with the proved model run on the same host "
+             "addresses; any difference is a violation (the model's verdict is OwnMemory by C02_checkMem_iff/C02_refused/C02_admitted). Non-trivial: distinct probe that reached the access.",
+        trusted=EXEC_TRUST,
+    ),
+    "C14": dict(
+        suites=["asmfuzz", "asm"], oracle=oracle_c14, level="proof",
+        nontrivial=lambda line, impl: impl != "bad-op" and len(line.split()[1]) > 2,
+        rule="suites asmfuzz + asm: numeric literals of every length 1..40 x radix x sign in 20 operand templates, i64/u64 boundary literals, huge and malformed registers, "
+             "truncated operands, random strings over an alphabet with non-ASCII whitespace/alphanumerics, mutated valid texts; AST-directed valid and out-of-range instructions. "
+             "Oracle: never 'panic'. Non-trivial: distinct non-empty text.",
+        trusted=["Unicode classes char::is_whitespace / is_alphanumeric / is_alphabetic are model parameters (theorems hold for every instantiation); the driver instantiates them for the generator's alphabet"],
+    ),
+    "C15": dict(
+        suites=["dis"], oracle=oracle_c15, level="proof",
+        nontrivial=lambda line, impl: impl.startswith("ok ") and len(impl) > 4,
+        rule="suite dis: all 256 opcodes x 256 register bytes with boundary offsets/immediates, every supported opcode x boundary (off, imm) grid incl. -32768 and i32 extremes, "
+             "random programs with merged wide loads, odd lengths, wide load in last slot, call kinds 0..15. Oracles: no panic on C15's domain (DisasmOk, decided by the Lean driver), "
+             "entry fields vs an independent decode of the slots; full entries (name, text) vs the model. Non-trivial: distinct input that yields at least one entry.",
+        trusted=[],
+    ),
     "C06": dict(
         suites=["verify"], oracle=None, level="proof",
         nontrivial=lambda line, impl: impl in ("ok", "err") and len(line.split()[1]) % 16 == 0 and len(line.split()[1]) >= 16,
@@ -147,7 +244,7 @@ def run_property(core, pid, tier, seed, replay):
     else:
         lines = []
         for s in cfg["suites"]:
-            lines += core.gen_cases(s, tier, seed, cfg.get("corpus", [pid]))
+            lines += [l + cfg.get("case_suffix", "") for l in core.gen_cases(s, tier, seed, cfg.get("corpus", [pid]))]
     res = core.run_both(lines) if lines else {"impl": ("", "", 0), "model": ("", "", 0)}
     impl_lines = res["impl"][0].split("\n")[:-1]
     model_lines = res["model"][0].split("\n")[:-1]
@@ -166,7 +263,9 @@ def run_property(core, pid, tier, seed, replay):
         why = None
         if "viol" in ikv: why = ikv["viol"]
         elif "spec" in mkv and mkv["spec"] != impl: why = "implementation gives '%s' where the property's specification gives '%s'" % (impl, mkv["spec"])
-        elif cfg.get("oracle"): why = cfg["oracle"](line, impl, mkv)
+        elif cfg.get("oracle"): why = cfg["oracle"](line, impl, mkv, ikv, mod)
+        if why is None and impl != mod and cfg.get("model_is_spec"):
+            why = "implementation gives '%s' where the proved model gives '%s'" % (impl, mod)
         if why:
             k = match_known(known, pid, line, impl, mkv)
             if k:
